@@ -13,6 +13,7 @@
 #include <validation.h>
 #include <validationinterface.h>
 
+#include <functional>
 #include <memory>
 #include <optional>
 #include <string>
@@ -26,8 +27,8 @@ struct NodeOpts {
     bool block_tree_db_in_memory{true};
     int worker_threads{0};
     int prevout_threads{0};
-    std::optional<size_t> sigcache_bytes;
-    std::optional<size_t> scriptcache_bytes;
+    std::optional<size_t> sigcache_bytes{1 << 20};   //!< small by default: a 16 MiB table costs ~0.4 s to allocate and zero per node start
+    std::optional<size_t> scriptcache_bytes{1 << 20};
     std::optional<uint256> assumed_valid;
     std::optional<arith_uint256> min_chain_work;
     uint64_t total_cache_bytes{32 << 20};
@@ -48,6 +49,8 @@ struct NodeOpts {
     int64_t check_blocks{6};          //!< 0 = all
     int check_block_index{1};
     bool require_full_verification{false}; //!< false: level-3 checks may be skipped when the coins cache is too small for them
+    std::vector<std::shared_ptr<CValidationInterface>> listeners; //!< registered before anything is loaded or connected
+    std::function<void()> after_load;   //!< called between VerifyLoadedChainstate and the first ActivateBestChain
     std::chrono::seconds max_tip_age{std::chrono::hours{24 * 365 * 100}}; //!< never IBD unless asked
 };
 
